@@ -392,10 +392,84 @@ def rank_oracle(ctx, case, real):
                                         dict(pair=key), None))
 
 
+RR1 = ["ACGTTGCAAGCT", "GGATCCTTAGGA", "CGGTGAGCTGCA"]
+RR2 = ["TTGACCAGTCAA", "CATGGTACCGTA", "GTCGAGGCTAGT"]
+
+
+def repeat_rank_case(ctx):
+    """--pair-adapters where a specification is given several times on a side (combinatorial dual indices: ranks (X,P), (Y,P), (X,Q)): the rank of an
+    adapter is its position on the command line. Unnamed adapters, exact full-length copies only (-e 0 --no-indels -O 12), inserts without G."""
+    rng = ctx.rng
+    k = rng.randint(3, 5)
+    a1 = [rng.choice(RR1[:2 if rng.random() < 0.6 else 3]) for _ in range(k)]
+    a2 = [rng.choice(RR2[:2 if rng.random() < 0.6 else 3]) for _ in range(k)]
+    flag = rng.choice(["-a", "-a", "-g"])
+    argv = ["--no-index", "-e", "0", "--no-indels", "-O", "12"]
+    for sp in a1:
+        argv += [flag, sp]
+    for sp in a2:
+        argv += [flag.upper(), sp]
+    argv += ["--pair-adapters", "-o", "{dir}/o1.fastq", "-p", "{dir}/o2.fastq"]
+    ins = lambda n: "".join(rng.choice("ATTAC") for _ in range(n))
+
+    def read(ad):
+        return ins(rng.randint(15, 40)) + ("" if ad is None else ad) + ins(rng.randint(0 if ad else 5, 15))
+    r1, r2 = [], []
+    for i in range(rng.randint(6, 10)):
+        s1, s2 = read(rng.choice([None] + RR1)), read(rng.choice([None] + RR2))
+        r1.append((f"r{i} 1:N:0:1", s1, "I" * len(s1)))
+        r2.append((f"r{i} 2:N:0:1", s2, "I" * len(s2)))
+    return dict(argv=argv, paired=True, reads1=r1, reads2=r2, with_qual=True, interleaved_in=False, repeat_ranks=dict(a1=a1, a2=a2, five=flag == "-g"))
+
+
+def repeat_rank_oracle(ctx, case, real):
+    """the clause itself: both mates were cut at a copy of the R1 / R2 adapter of one rank (position on the command line), or neither is changed"""
+    rr = case.get("repeat_ranks")
+    if "error" in real or not rr:
+        return
+    o1 = {rid(r[0]): r for fn, side, recs in pipeprop.output_roles(case, real) if side == 0 for r in recs}
+    o2 = {rid(r[0]): r for fn, side, recs in pipeprop.output_roles(case, real) if side == 1 for r in recs}
+
+    def cut_by(s, out, ads):
+        """ranks whose adapter has a copy in s at which cutting gives out"""
+        ks = set()
+        for i, ad in enumerate(ads):
+            p = s.find(ad)
+            while p >= 0:
+                if (s[p + len(ad):] if rr["five"] else s[:p]) == out:
+                    ks.add(i)
+                p = s.find(ad, p + 1)
+        return ks
+    for (n1, s1, _), (n2, s2, _) in zip(case["reads1"], case["reads2"]):
+        key = rid(n1)
+        if key not in o1 or key not in o2:
+            ctx.failures.append(Failure("C05/pair-adapters-pair-lost", "a pair is missing from the output of a run without filters", case_input(case), dict(pair=key), None))
+            continue
+        t1, t2 = o1[key][1], o2[key][1]
+        ctx.count("pair-adapters-repeated-checked")
+        if t1 == s1 and t2 == s2:
+            # untouched: right unless some rank has a copy of both its adapters (then that pair of adapters had to be found)
+            both = [i for i in range(len(rr["a1"])) if rr["a1"][i] in s1 and rr["a2"][i] in s2]
+            first = next((i for i in range(len(rr["a1"])) if rr["a1"][i] in s1), None)
+            # the search takes the best R1 match (first given among equals) and then only the R2 adapter of that rank
+            if first is not None and first in both:
+                ctx.failures.append(Failure("C05/pair-adapters-rank-not-found", "--pair-adapters: both adapters of a rank occur (exact copies) and the R1 adapter "
+                                            "is the first given one that occurs, but the pair is unchanged", case_input(case), dict(pair=key, rank=first), None))
+            continue
+        ks = cut_by(s1, t1, rr["a1"]) & cut_by(s2, t2, rr["a2"])
+        if ks:
+            ctx.nontriv(("repeat-rank", tuple(case["argv"]), key))
+        else:
+            ctx.failures.append(Failure("C05/pair-adapters-different-ranks", "--pair-adapters: the two mates were not both cut at copies of the R1 and R2 adapter of "
+                                        "one rank (rank = position of the adapter on the command line)", case_input(case),
+                                        dict(pair=key, r1=[s1, t1], r2=[s2, t2], r1_adapters=rr["a1"], r2_adapters=rr["a2"]), None))
+
+
 def oracle(ctx, case, res, real):
     if sync_oracle(ctx, case, res, real):
         pair_adapters_oracle(ctx, case, real)
         rank_oracle(ctx, case, real)
+        repeat_rank_oracle(ctx, case, real)
 
 
 def run(ctx):
@@ -435,6 +509,7 @@ def run(ctx):
         cs.append(dict(argv=["--no-index", "-a", "a0=AAAGGGCCC", "-a", "a1=GATTACAGA", "-A", "b0=TTTGGGAAC", "-A", "b1=ACGTACGTAC", "--pair-adapters",
                              "-o", "{dir}/o1.fastq", "-p", "{dir}/o2.fastq"], paired=True, reads1=r1, reads2=r2, with_qual=True, interleaved_in=False))
     cs += [rank_case(ctx) for _ in range(ctx.scale(120, 2000))]
+    cs += [repeat_rank_case(ctx) for _ in range(ctx.scale(80, 1500))]
     for case, res, real, model in pipe.run_cases(ctx, cs):
         oracle(ctx, case, res, real)
 
